@@ -227,13 +227,13 @@ func runSealSuicide(skip bool, out string) {
 	var gate chan struct{}
 	select {
 	case gate = <-parkedCh:
-	case <-time.After(20 * time.Second):
+	case <-time.After(180 * time.Second):
 		fmt.Println(`{"infra":"sealer did not reach pf.idle"}`)
 		os.Exit(3)
 	}
 	select {
 	case <-shifted:
-	case <-time.After(20 * time.Second):
+	case <-time.After(180 * time.Second):
 		fmt.Println(`{"infra":"retention did not pop the sealing fraction"}`)
 		os.Exit(3)
 	}
